@@ -451,6 +451,9 @@ class Env:
         if k == "un":
             a = self.op_term(rv["o"], pos, depth)
             if rv["op"] == "PtrMetadata":
+                n = self.array_len(rv["o"])
+                if n is not None:
+                    return Term(None, n, (), "usize")
                 return Term("len(%s)" % strip_ref(repr(a)), 0, len_reads(a.reads), "usize")
             return Term("%s(%r)" % (rv["op"], a), 0, a.reads, ty)
         if k in ("ref", "rawptr"):
@@ -1012,18 +1015,27 @@ class Env:
         return facts
 
     def array_len(self, o, depth=6):
-        """N when operand o is (a reference to / an unsized view of) a place of type [T; N]; else None."""
+        """N when operand o is (a reference to / an unsized view of) a place of type [T; N] or GenericArray<T, N>; else None."""
         b = self.b
         p = op_place(o)
         if p is None or depth <= 0:
             return None
         if not [e for e in p["p"] if e != "*"]:
-            m = re.search(r"^&?(?:mut )?\[[^\[\];]*; (\d+)\]$", b.lty(p["l"]).strip())
+            lt = b.lty(p["l"]).strip()
+            m = re.search(r"^&?(?:mut )?\[[^\[\];]*; (\d+)\]$", lt)
             if m:
                 return int(m.group(1))
-        if p["p"] or p["l"] in b.names or self.is_arg(p["l"]):
+            m = re.search(r"^&?(?:mut )?(?:[\w:]+::)?GenericArray<[^,<>]+, (.*)>$", lt)
+            if m:
+                n = typenum_value(m.group(1))
+                if n is not None:
+                    return n
+        if [e for e in p["p"] if e != "*"] or p["l"] in b.names or self.is_arg(p["l"]):
             return None
         d = b.single_def(p["l"])
+        if d is not None and d[2] == "call" and len(d[3]["args"]) == 1 and \
+                (d[3]["f"].get("fn") or "").rsplit("::", 1)[-1] in ("deref", "deref_mut", "as_slice", "as_mut_slice", "as_ref", "as_mut", "borrow"):
+            return self.array_len(d[3]["args"][0], depth - 1)
         if d is None or d[2] != "rv":
             return None
         rv = d[3]
@@ -1368,6 +1380,18 @@ def is_elem_place(p):
     """place denotes an element of a slice/array reached from the local: fields..., optional deref, then an index."""
     pr = p["p"]
     return bool(pr) and isinstance(pr[-1], dict) and ("idx" in pr[-1] or "cidx" in pr[-1])
+
+
+def typenum_value(s):
+    """value of a typenum unsigned integer type (`UInt<UInt<UTerm, B1>, B0>` = 2): binary digits, most significant innermost."""
+    s = re.sub(r"\b[\w]+::", "", s.strip())
+    if s == "UTerm":
+        return 0
+    m = re.match(r"^UInt<(.*), B([01])>$", s)
+    if not m:
+        return None
+    inner = typenum_value(m.group(1))
+    return None if inner is None else 2 * inner + int(m.group(2))
 
 
 def static_range(t):
